@@ -4,10 +4,12 @@ package main
 
 import (
 	"encoding/base64"
+	"errors"
 	"fmt"
 	"testing"
 
 	"github.com/tinode/chat/server/auth"
+	"github.com/tinode/chat/server/db/vfmem"
 	"github.com/tinode/chat/server/store"
 	"github.com/tinode/chat/server/store/types"
 	"github.com/tinode/chat/server/vfkit"
@@ -94,6 +96,8 @@ func c11Setup(e *vfEnv, r *vfkit.R, emailOn bool) *c11World {
 	return w
 }
 
+var errC11Injected = errors.New("vf injected credential read failure")
+
 type c11State struct {
 	ver  bool
 	uid  types.Uid
@@ -164,6 +168,25 @@ func (w *c11World) connection(idx int, rng interface{ Intn(int) int }) {
 		var extra map[string]any
 		obo := ""
 		forceVariant := ""
+		faultCred := false
+		if idx%5 == 2 {
+			// directed: a restricted (no-login) token is presented, then whatever token the reply carries
+			switch i {
+			case 0:
+				k = 0
+			case 1:
+				k, forceVariant = 5, "nologin"
+			}
+		}
+		if w.emailOn && idx%5 == 1 {
+			// directed: the store cannot read the credentials of an account which lacks a required validated one
+			switch i {
+			case 0:
+				k = 0
+			case 1:
+				k, forceVariant, faultCred = 5, "unval", true
+			}
+		}
 		if w.emailOn && idx%5 == 3 {
 			// directed: an account lacking a required validated credential logs in
 			switch i {
@@ -208,7 +231,7 @@ func (w *c11World) connection(idx int, rng interface{ Intn(int) int }) {
 		case k < 4: // hi
 			vers := []string{"0.22", "0.22", "0.15", "abc", "0.21", ""}
 			v := vers[rng.Intn(len(vers))]
-			if (selfObo || (w.emailOn && idx%5 == 3)) && i == 0 {
+			if (selfObo || idx%5 == 2 || (w.emailOn && (idx%5 == 3 || idx%5 == 1))) && i == 0 {
 				v = "0.22"
 			}
 			id, ctrls := do("hi", map[string]any{"ver": v, "ua": "c11"}, extra)
@@ -274,9 +297,42 @@ func (w *c11World) connection(idx int, rng interface{ Intn(int) int }) {
 				acct = w.unval
 				body["secret"] = b64(acct.login + ":" + acct.pass)
 			}
+			fired := false
+			if faultCred {
+				vfRec.setFault(func(c *vfmem.Call) error {
+					if c.Op == "CredGetAll" && c.User == w.unval.uid {
+						fired = true
+						return errC11Injected
+					}
+					return nil
+				})
+			}
 			id, ctrls := do("login", body, extra)
+			vfRec.setFault(nil)
 			f := replyFor(id, ctrls)
-			note("login %s obo=%s -> %s", v, obo, codeStr(f))
+			note("login %s obo=%s fault=%v -> %s", v, obo, fired, codeStr(f))
+			if fired {
+				// the login did not succeed in establishing that the required credential is validated: whatever the
+				// error code, it must not be a success, and the session stays unauthenticated (probed at the end)
+				r.Hit("login_cred_read_fault")
+				if f == nil {
+					r.Violation("unanswered:login-under-fault", "login got no reply when the credential read failed", wit(nil))
+				} else if f.code() < 300 {
+					r.Violation("login-fails-open:cred-read-fault", "login of an account lacking a required validated credential succeeded when the credentials could not be read: "+f.Raw, wit(nil))
+				}
+				continue
+			}
+			if v == "nologin" && !oboDenied && st.ver && st.uid.IsZero() && f != nil {
+				// the reply to a restricted token must not hand out anything that logs in
+				if tok, _ := f.params()["token"].(string); tok != "" {
+					id2, ctrls2 := do("login", map[string]any{"scheme": "token", "secret": tok}, nil)
+					f2 := replyFor(id2, ctrls2)
+					note("login with the token returned for the restricted token -> %s", codeStr(f2))
+					r.Hit("nologin_token_reissue")
+				} else {
+					r.Hit("nologin_token_reissue")
+				}
+			}
 			switch {
 			case oboDenied:
 				expectErr("obo-non-root", f, 403)
